@@ -203,6 +203,18 @@ def run(rep, tier, seed):
                 if ratio > 25.0:
                     fails.append((case, f"Rodas/{scheme}: error at the requested nodes {e_node:.3e} is {ratio:.0f} times the error at the step ends "
                                         f"{e_step:.3e} (rtol {rt})"))
+                # the same with a non-terminal state event (x = 0): steps are cut short at the events, the nodes before an event
+                # inside such a step must still be as accurate as step values
+                ev = lambda t, y: (np.array([y[0]]), np.array([False]), np.array([0.0]))
+                s2e = RC.quiet(Rodas, osc, [0.0, 10.0], np.array([1.0, 0.0]), Opt(rtol=rt, atol=rt * 1e-2, scheme=scheme, event=ev))
+                sde = RC.quiet(Rodas, osc, np.linspace(0.0, 10.0, 401), np.array([1.0, 0.0]), Opt(rtol=rt, atol=rt * 1e-2, scheme=scheme, event=ev))
+                e_step = float(np.max(np.abs(np.asarray(s2e.Y) - exact(np.asarray(s2e.T).ravel()))))
+                e_node = float(np.max(np.abs(np.asarray(sde.Y) - exact(np.asarray(sde.T).ravel()))))
+                ratio = e_node / max(e_step, 1e-14)
+                hist["dense_accuracy_ratio"][f"{scheme}/{rt}/events"] = round(ratio, 2)
+                if ratio > 25.0:
+                    fails.append((dict(case, events="x = 0, non-terminal"), f"Rodas/{scheme} with events: error at the requested nodes {e_node:.3e} is "
+                                  f"{ratio:.0f} times the error at the step ends {e_step:.3e} (rtol {rt})"))
             except Exception as ex:  # noqa
                 fails.append((case, f"Rodas/{scheme} raised {type(ex).__name__}: {str(ex)[:80]}"))
     O15._verif_trace.clear()
